@@ -20,7 +20,7 @@ use crate::engine::{idx, Case, Ctx, Sm64};
 use crate::gen::shard::{key, materialize, mh, shard_spec, unkey, ShardModel, ShardSpec, K};
 use crate::refs::merkle::{self as rm, H};
 
-pub const RULE: &str = "universe = generated set of xorb records (chunk hashes with engineered truncated-prefix collisions, the same chunk lists under several xorbs, 0..thousands of chunks); three surfaces: MDBInMemoryShard, MDBShardInfo over the serialized shard, and ShardFileManager histories {add xorb, flush, plant an unkeyed shard, plant an HMAC-keyed export (1-3 keys, all include-flag combinations), re-open, consolidate}; queries = runs that are present, absent, partially matching, starting mid-xorb, running past the xorb end, or starting with a hash that only shares the 64-bit prefix of a stored chunk. Oracle (soundness of positives): Some((n, entry)) implies 1 <= n <= |query|, entry names a universe xorb, [start, start+n) lies inside it, its chunk hashes there equal the first n query hashes and the byte count is the sum of those chunk lengths. non-trivial = a positive answer with n >= 2, or a query whose first truncated prefix collides with a different stored chunk; distinct by fingerprint of the generated case";
+pub const RULE: &str = "universe = generated set of xorb records (chunk hashes with engineered truncated-prefix collisions, the same chunk lists under several xorbs, 0..thousands of chunks); three surfaces: MDBInMemoryShard, MDBShardInfo over the serialized shard, and ShardFileManager histories {add xorb, flush, plant an unkeyed shard, plant an HMAC-keyed export (1-3 keys, all include-flag combinations), re-open, consolidate}; queries = runs that are present, absent, partially matching, starting mid-xorb, running past the xorb end, or starting with a hash that only shares the 64-bit prefix of a stored chunk. Oracle (soundness of positives): Some((n, entry)) implies 1 <= n <= |query|, entry names a universe xorb, [start, start+n) lies inside it, its chunk hashes there equal the first n query hashes and the byte count is the sum of those chunk lengths. non-trivial = a positive answer with n >= 2, or a query whose first truncated prefix collides with a different stored chunk; distinct by fingerprint of the generated case Streams 'deduper-3' / 'deduper' / 'deduper-wide' (child processes with MAX_XORB_CHUNKS = 3 / 8192 / 200 000): FileDeduper, the per-file deduplicator, is driven with one file = 1-9 elements {n fresh chunks (n biased to 2^k-1 / 2^k / 2^k+1 up to 140 000 in the wide configuration), a run of a known xorb, a repeat of earlier chunks of the file at a position with the same bias} of 4-8 byte chunks, split into generated process_chunks calls, against a data interface that answers from 0-3 known xorbs truthfully by construction (some of them only after a completed global dedup query); oracle: every segment of the file record returned by finalize names a xorb of the index, a xorb the file cut, or the xorb still being built, its chunk range lies inside that xorb, the hashes at those positions are the file's chunk hashes in order, its byte count is their sum, and the segments cover the file exactly; non-trivial there = >= 2 segments with an index hit or two segments into the file's own xorbs.";
 
 pub const ASSUMPTIONS: &[&str] = &[
     "queries are non-empty (every caller passes at least one hash)",
@@ -397,7 +397,263 @@ fn hist_oracle(c: &HistCase, info: &mut Case) -> Result<(), String> {
     Ok(())
 }
 
+// ---- streams 'deduper*': FileDeduper (the per-file deduplicator) against a truthful index ----
+//
+// The dedup answers that end up in a file's record come from three places: the shard index (the
+// data interface), the remainder of a partly consumed index hit, and the lookup into the xorb that
+// is being built (the in-xorb self-reference, which is not re-checked by anybody). The streams drive
+// `FileDeduper` with a data interface whose answers are truthful by construction and check that every
+// segment of the resulting record is truthful too. They run in child processes because the xorb
+// limits are process-wide constants: MAX_XORB_CHUNKS = 3 / 8192 (shipped) / 200 000.
+
+#[derive(Clone, Debug, Serialize, Deserialize)]
+pub enum El {
+    /// n chunks that occur nowhere else
+    Fresh(u32),
+    /// a run of a known xorb
+    Known { xorb: u8, start: u16, len: u16 },
+    /// a repeat of chunks [pos, pos+len) of this file as listed so far
+    Back { pos: u32, len: u16 },
+}
+
+#[derive(Clone, Debug, Serialize, Deserialize)]
+pub struct DedupCase {
+    /// MAX_XORB_CHUNKS the case was generated for (must equal the process constant)
+    pub max_xorb_chunks: u32,
+    /// chunk ids of the xorbs the index knows
+    pub known: Vec<Vec<u8>>,
+    /// how many of them (from the end) only become visible through a completed global dedup query
+    pub late: u8,
+    pub file: Vec<El>,
+    /// sizes of the process_chunks calls (the rest goes into one last call)
+    pub calls: Vec<u32>,
+}
+
+fn dd_chunk(id: u32) -> deduplication::Chunk {
+    let mut data = id.to_le_bytes().to_vec();
+    data.extend(std::iter::repeat(0xA5u8).take((id % 5) as usize));
+    deduplication::Chunk { hash: merklehash::compute_data_hash(&data), data: data.into() }
+}
+
+fn dedup_case(max_xorb_chunks: u32) -> BoxedStrategy<DedupCase> {
+    let big = match max_xorb_chunks {
+        0..=100 => 60u32,
+        101..=10_000 => 20_000,
+        _ => 140_000,
+    };
+    let el = prop_oneof![
+        3 => prop_oneof![3 => 1u32..40, 2 => crate::gen::edge_u32(big).prop_map(|n| n.max(1))].prop_map(El::Fresh),
+        2 => (0u8..4, 0u16..40, 1u16..40).prop_map(|(xorb, start, len)| El::Known { xorb, start, len }),
+        3 => (crate::gen::edge_u32(big + 200), prop_oneof![3 => 1u16..12, 1 => 1u16..400]).prop_map(|(pos, len)| El::Back { pos, len }),
+    ];
+    (
+        proptest::collection::vec(proptest::collection::vec(0u8..60, 1..40), 0..4),
+        0u8..3,
+        proptest::collection::vec(el, 1..10),
+        proptest::collection::vec(prop_oneof![2 => 0u32..50, 2 => crate::gen::edge_u32(big)], 0..6),
+    )
+        .prop_map(move |(known, late, file, calls)| DedupCase { max_xorb_chunks, known, late, file, calls })
+        .boxed()
+}
+
+struct DdState {
+    known: Vec<(MerkleHash, Vec<(MerkleHash, u32)>)>,
+    visible: usize,
+    query_registered: bool,
+    queries: u32,
+    index_hits: u32,
+    registered: BTreeMap<MerkleHash, Vec<(MerkleHash, u32)>>,
+}
+
+#[derive(Clone)]
+struct DdIface(Arc<std::sync::Mutex<DdState>>);
+
+#[async_trait::async_trait]
+impl deduplication::DeduplicationDataInterface for DdIface {
+    type ErrorType = std::io::Error;
+
+    async fn chunk_hash_dedup_query(&self, query_hashes: &[MerkleHash]) -> Result<Option<(usize, FileDataSequenceEntry)>, Self::ErrorType> {
+        let mut st = self.0.lock().unwrap();
+        st.queries += 1;
+        let vis = st.visible;
+        for (xh, chunks) in st.known[..vis].iter() {
+            if let Some(pos) = chunks.iter().position(|(h, _)| *h == query_hashes[0]) {
+                let mut n = 0;
+                let mut bytes = 0u32;
+                while pos + n < chunks.len() && n < query_hashes.len() && chunks[pos + n].0 == query_hashes[n] {
+                    bytes += chunks[pos + n].1;
+                    n += 1;
+                }
+                let fse = FileDataSequenceEntry::new(*xh, bytes, pos as u32, (pos + n) as u32);
+                st.index_hits += 1;
+                return Ok(Some((n, fse)));
+            }
+        }
+        Ok(None)
+    }
+
+    async fn register_global_dedup_query(&mut self, _chunk_hash: MerkleHash) -> Result<(), Self::ErrorType> {
+        self.0.lock().unwrap().query_registered = true;
+        Ok(())
+    }
+
+    async fn complete_global_dedup_queries(&mut self) -> Result<bool, Self::ErrorType> {
+        let mut st = self.0.lock().unwrap();
+        if st.query_registered && st.visible < st.known.len() {
+            st.visible = st.known.len();
+            return Ok(true);
+        }
+        Ok(false)
+    }
+
+    async fn register_new_xorb(&mut self, xorb: deduplication::RawXorbData) -> Result<(), Self::ErrorType> {
+        let chunks = xorb.cas_info.chunks.iter().map(|c| (c.chunk_hash, c.unpacked_segment_bytes)).collect();
+        self.0.lock().unwrap().registered.insert(xorb.hash(), chunks);
+        Ok(())
+    }
+}
+
+fn dedup_oracle(c: &DedupCase, info: &mut Case) -> Result<(), String> {
+    crate::engine::journal(&serde_json::to_string(c).unwrap_or_default());
+    let active = *deduplication::constants::MAX_XORB_CHUNKS;
+    if active != c.max_xorb_chunks as usize {
+        return Err(format!("[sig:infra] case generated for MAX_XORB_CHUNKS={} but the process runs with {active}", c.max_xorb_chunks));
+    }
+    // the file's chunk ids
+    let mut ids: Vec<u32> = Vec::new();
+    let mut next_fresh = 1_000_000u32;
+    for e in &c.file {
+        match e {
+            El::Fresh(n) => {
+                ids.extend(next_fresh..next_fresh + *n);
+                next_fresh += *n;
+            },
+            El::Known { xorb, start, len } => {
+                if let Some(x) = c.known.get((*xorb as usize).min(c.known.len().saturating_sub(1))) {
+                    let a = (*start as usize).min(x.len() - 1);
+                    let b = (a + *len as usize).min(x.len());
+                    ids.extend(x[a..b].iter().map(|i| *i as u32));
+                }
+            },
+            El::Back { pos, len } => {
+                if !ids.is_empty() {
+                    let a = (*pos as usize).min(ids.len() - 1);
+                    let b = (a + *len as usize).min(ids.len());
+                    let rep: Vec<u32> = ids[a..b].to_vec();
+                    if a >= 65_536 {
+                        info.label("repeat-of-file-chunks-at-position>=65536");
+                    }
+                    ids.extend(rep);
+                }
+            },
+        }
+    }
+    let mut cache: BTreeMap<u32, deduplication::Chunk> = BTreeMap::new();
+    let chunks: Vec<deduplication::Chunk> = ids.iter().map(|i| cache.entry(*i).or_insert_with(|| dd_chunk(*i)).clone()).collect();
+    let known: Vec<(MerkleHash, Vec<(MerkleHash, u32)>)> = c
+        .known
+        .iter()
+        .enumerate()
+        .map(|(i, x)| {
+            (merklehash::compute_data_hash(format!("known-xorb-{i}").as_bytes()), x.iter().map(|id| {
+                let ch = dd_chunk(*id as u32);
+                (ch.hash, ch.data.len() as u32)
+            }).collect())
+        })
+        .collect();
+    let visible = known.len() - (c.late as usize).min(known.len());
+    let st = Arc::new(std::sync::Mutex::new(DdState { known: known.clone(), visible, query_registered: false, queries: 0, index_hits: 0, registered: BTreeMap::new() }));
+    let mut deduper = deduplication::FileDeduper::new(DdIface(st.clone()));
+    let mut at = 0usize;
+    let mut n_calls = 0;
+    for sz in c.calls.iter().map(|s| *s as usize).chain(std::iter::once(usize::MAX)) {
+        let end = at.saturating_add(sz).min(chunks.len());
+        futures::executor::block_on(deduper.process_chunks(&chunks[at..end])).map_err(|e| format!("[sig:c05-deduper-error] process_chunks failed although the data interface never fails: {e}"))?;
+        n_calls += 1;
+        at = end;
+        if at >= chunks.len() && sz == usize::MAX {
+            break;
+        }
+    }
+    let (_file_hash, agg, _metrics, _new_xorbs) = deduper.finalize([0u8; 32], None);
+    let pending: Vec<(MerkleHash, u32)> = agg.chunks.iter().map(|ch| (ch.hash, ch.data.len() as u32)).collect();
+    let st = st.lock().unwrap();
+    if agg.pending_file_info.len() != 1 {
+        return Err(format!("[sig:c05-deduper-record] finalize returned {} file records for one file", agg.pending_file_info.len()));
+    }
+    let fi = &agg.pending_file_info[0].0;
+    let mut pos = 0usize;
+    let (mut seg_known, mut seg_registered, mut seg_pending) = (0, 0, 0);
+    for (si, seg) in fi.segments.iter().enumerate() {
+        let (src, what): (&Vec<(MerkleHash, u32)>, &str) = if seg.cas_hash == MerkleHash::default() {
+            seg_pending += 1;
+            (&pending, "the xorb still being built")
+        } else if let Some(x) = st.registered.get(&seg.cas_hash) {
+            seg_registered += 1;
+            (x, "a xorb cut by this file")
+        } else if let Some((_, x)) = known.iter().find(|(h, _)| *h == seg.cas_hash) {
+            seg_known += 1;
+            (x, "a xorb of the index")
+        } else {
+            return Err(format!("[sig:c05-deduper-unknown-xorb] segment {si} refers to xorb {} which neither the index nor this file produced", seg.cas_hash.hex()));
+        };
+        let (a, b) = (seg.chunk_index_start as usize, seg.chunk_index_end as usize);
+        if a >= b || b > src.len() {
+            return Err(format!("[sig:c05-deduper-range] segment {si} claims chunks [{a},{b}) of {what}, which has {} chunks", src.len()));
+        }
+        let mut bytes = 0u64;
+        for k in a..b {
+            if pos >= chunks.len() {
+                return Err(format!("[sig:c05-deduper-cover] the record covers more chunks than the file's {}", chunks.len()));
+            }
+            if src[k].0 != chunks[pos].hash {
+                return Err(format!("[sig:c05-deduper-untruthful] segment {si} says file chunk {pos} is stored at position {k} of {what} ({} chunks), but that position holds another chunk", src.len()));
+            }
+            bytes += src[k].1 as u64;
+            pos += 1;
+        }
+        if bytes != seg.unpacked_segment_bytes as u64 {
+            return Err(format!("[sig:c05-deduper-bytes] segment {si} reports {} bytes, chunks [{a},{b}) of {what} hold {bytes}", seg.unpacked_segment_bytes));
+        }
+    }
+    if pos != chunks.len() {
+        return Err(format!("[sig:c05-deduper-cover] the record covers {pos} of the file's {} chunks", chunks.len()));
+    }
+    let widest = st.registered.values().map(|v| v.len()).chain(std::iter::once(pending.len())).max().unwrap_or(0);
+    if widest > 65_535 {
+        info.label("xorb-of-more-than-65535-chunks");
+    }
+    if st.registered.len() >= 1 {
+        info.label("file-cut-one-or-more-xorbs");
+    }
+    if seg_known > 0 {
+        info.label("segment-from-index-hit");
+    }
+    if st.visible > visible {
+        info.label("late-shard-arrived-after-global-query");
+    }
+    let self_ref = seg_pending + seg_registered >= 2;
+    if self_ref {
+        info.label("segments>=2-into-own-xorbs");
+    }
+    info.nontrivial_if(fi.segments.len() >= 2 && (seg_known > 0 || self_ref));
+    info.note = Some(json!({"chunks": chunks.len(), "calls": n_calls, "segments": fi.segments.len(), "index_queries": st.queries, "index_hits": st.index_hits, "xorbs_cut": st.registered.len(), "widest_xorb": widest}));
+    Ok(())
+}
+
+const DD_CONFS: [(&str, u32); 3] = [("deduper-3", 3), ("deduper", 8192), ("deduper-wide", 200_000)];
+
 pub fn run(ctx: &Ctx) {
     ctx.explore("pure", ctx.tier.pick(24_000, 1_000_000), 16, pure_case, pure_oracle);
     ctx.explore("history", ctx.tier.pick(12_000, 500_000), 16, hist_case, hist_oracle);
+    let n = [ctx.tier.pick(6_000, 200_000), ctx.tier.pick(3_000, 60_000), ctx.tier.pick(640, 16_000)];
+    for (i, (stream, mxc)) in DD_CONFS.iter().enumerate() {
+        if ctx.is_worker || ctx.replay.is_some() {
+            ctx.explore(stream, n[i], 1, || dedup_case(*mxc), dedup_oracle);
+        } else {
+            let mut env = BTreeMap::new();
+            env.insert("HF_XET_MAX_XORB_CHUNKS".to_string(), mxc.to_string());
+            ctx.explore_workers(stream, n[i], 16, &env, Duration::from_secs(ctx.tier.pick(900, 7200)));
+        }
+    }
 }
